@@ -190,7 +190,7 @@ func run(c *harness.Ctx, i int) {
 		}
 	}
 	want := matches(data, idx)
-	useCLI := i%60 == 5
+	useCLI := i%40 == 5
 	// a cancellation that arrives while a file that does NOT match is being verified must not turn into success
 	cancelAt := int64(0)
 	if !want && !useCLI && nc > 0 && rng.Intn(4) == 0 {
@@ -208,8 +208,16 @@ func run(c *harness.Ctx, i int) {
 	var err error
 	pb := &dsu.CountPB{}
 	if useCLI {
-		idxFile := filepath.Join(dir, "blob.caibx")
+		// the index is a local file with an ordinary or an odd (but legal) name; next to it sits an index of OTHER
+		// data under the name a careless URL-style treatment of the location would arrive at
+		idxName := []string{"blob.caibx", "blob.caibx", "blob.caibx#new", "blob.caibx?rev=2", "blob%2Ecaibx", "blob v2 (final).caibx", "blob.caibx;1"}[rng.Intn(7)]
+		other := dsu.RefIndex(dsu.MakeBlob(rng, "random", len(data)+1, sz), sz)
+		if idxName != "blob.caibx" {
+			dsu.Must(dsu.WriteIndex(filepath.Join(dir, "blob.caibx"), other))
+		}
+		idxFile := filepath.Join(dir, idxName)
 		dsu.Must(dsu.WriteIndex(idxFile, idx))
+		mutation += "|name:" + idxName
 		cmd := exec.Command(cli, "verify-index", "-n", fmt.Sprint(n), idxFile, file)
 		cmd.Env = append(os.Environ(), "HOME="+dir)
 		var stderr bytes.Buffer
